@@ -10,6 +10,7 @@ import (
 	"sync"
 	"sync/atomic"
 	"testing"
+	"testing/iotest"
 	"time"
 
 	"github.com/openziti/storage/boltz"
@@ -30,6 +31,11 @@ type c17Case struct {
 	RestoreMode string      `json:"restoreMode,omitempty"` // bytes | reader
 	PreTimeline bool        `json:"preTimeline,omitempty"` // the database already has a timeline id before the snapshot
 	Listeners   int         `json:"listeners,omitempty"`
+	// SkipTimeline: no timeline request is made between the first restore and the second snapshot
+	SkipTimeline bool `json:"skipTimeline,omitempty"`
+	// WriteDuringSnapshotTx (snapMode file-in-tx): the first post-snapshot transaction commits while the read
+	// transaction the snapshot is taken from is already open; the snapshot shows what that read transaction sees
+	WriteDuringSnapshotTx bool `json:"writeDuringSnapshotTx,omitempty"`
 	// concurrent
 	Entities    int  `json:"entities,omitempty"`
 	Readers     int  `json:"readers,omitempty"`
@@ -59,7 +65,9 @@ func genC17(t *rapid.T) c17Case {
 	}
 	c.Split = rapid.IntRange(0, len(c.H.Txs)).Draw(t, "split")
 	c.SnapMode = []string{"file", "file-in-tx", "stream"}[rapid.IntRange(0, 2).Draw(t, "snapMode")]
-	c.RestoreMode = []string{"bytes", "reader"}[rapid.IntRange(0, 1).Draw(t, "restoreMode")]
+	c.RestoreMode = []string{"bytes", "reader", "reader-data-with-eof"}[rapid.IntRange(0, 2).Draw(t, "restoreMode")]
+	c.SkipTimeline = rapid.IntRange(0, 2).Draw(t, "skipTimeline") == 0
+	c.WriteDuringSnapshotTx = rapid.Bool().Draw(t, "writeDuringSnapshotTx")
 	c.PreTimeline = rapid.Bool().Draw(t, "preTimeline")
 	c.Listeners = rapid.IntRange(0, 3).Draw(t, "listeners")
 	return c
@@ -118,6 +126,28 @@ func runC17(c c17Case) kit.Result {
 		return res
 	}
 	defer w.Close()
+	// grow the file (and with it bbolt's memory map) once, then free the pages again: the small transactions of the
+	// history never make bbolt re-map the file, so a write transaction can commit while a read transaction is open
+	if err := w.Z.Db.Update(kit.NewCtx(), func(ctx boltz.MutateContext) error {
+		pad, err := ctx.Tx().CreateBucket([]byte("zz-pad"))
+		if err != nil {
+			return err
+		}
+		chunk := bytes.Repeat([]byte("p"), 2048)
+		for i := 0; i < 300; i++ {
+			if err := pad.Put([]byte(fmt.Sprintf("k%04d", i)), chunk); err != nil {
+				return err
+			}
+		}
+		return nil
+	}); err != nil {
+		res.Err = fmt.Errorf("harness: padding the file: %v", err)
+		return res
+	}
+	if err := w.Z.Db.Update(kit.NewCtx(), func(ctx boltz.MutateContext) error { return ctx.Tx().DeleteBucket([]byte("zz-pad")) }); err != nil {
+		res.Err = fmt.Errorf("harness: padding the file: %v", err)
+		return res
+	}
 	m := kit.NewModel(c.H.Cfg)
 	run := func(txs []kit.TxSpec, phase string) ([]bool, error) {
 		var outcomes []bool
@@ -158,21 +188,57 @@ func runC17(c c17Case) kit.Result {
 	}
 	modelAtSnapshot := m.Clone()
 	dumpAtSnapshot := stripSnapshotMarkers(w.Dump())
-	data, snapID, err := takeSnapshot(w, c.SnapMode)
+	var data []byte
+	var snapID string
+	var firstOutcome []bool
+	rest := c.H.Txs[c.Split:]
+	if c.SnapMode == "file-in-tx" && c.WriteDuringSnapshotTx && len(rest) > 0 {
+		// the read transaction is opened first, then the next transaction of the history commits (from another
+		// goroutine; if bbolt has to re-map the file it waits for the reader, then the write simply happens after
+		// the snapshot), then the snapshot is taken from the read transaction: it must show the state before the write
+		path := filepath.Join(w.Z.Dir, "snap.bolt")
+		_ = os.Remove(path)
+		done := make(chan kit.TxOutcome, 1)
+		err = w.Z.Db.View(func(tx *bbolt.Tx) error {
+			go func() { done <- kit.RunTx(w, m, rest[0]) }()
+			select {
+			case out := <-done:
+				done <- out
+				res.Classes = append(res.Classes, "write-committed-inside-the-snapshot-read-tx")
+			case <-time.After(300 * time.Millisecond):
+			}
+			var e error
+			_, snapID, e = w.Z.Db.SnapshotInTx(tx, path)
+			return e
+		})
+		out := <-done
+		if err == nil && out.Violation != nil {
+			err = fmt.Errorf("transaction running beside the snapshot's read transaction: %v", out.Violation)
+		}
+		if err == nil {
+			data, err = os.ReadFile(path)
+		}
+		firstOutcome, rest = []bool{out.Committed}, rest[1:]
+	} else {
+		data, snapID, err = takeSnapshot(w, c.SnapMode)
+		if err == nil {
+			if d := kit.DiffDumps(dumpAtSnapshot, stripSnapshotMarkers(w.Dump())); d != "" {
+				res.Err = fmt.Errorf("taking a snapshot changed the live database:\n%s", d)
+				return res
+			}
+		}
+	}
 	if err != nil {
 		res.Err = fmt.Errorf("taking the snapshot (%s): %v", c.SnapMode, err)
 		return res
 	}
-	if d := kit.DiffDumps(dumpAtSnapshot, stripSnapshotMarkers(w.Dump())); d != "" {
-		res.Err = fmt.Errorf("taking a snapshot changed the live database:\n%s", d)
-		return res
-	}
 	// arbitrary further transactions
-	outcomesB, err := run(c.H.Txs[c.Split:], "after the snapshot")
+	outcomesB, err := run(rest, "after the snapshot")
 	if err != nil {
 		res.Err = err
 		return res
 	}
+	outcomesB = append(firstOutcome, outcomesB...)
 	changed := false
 	for _, ok := range outcomesB {
 		if ok {
@@ -187,10 +253,14 @@ func runC17(c c17Case) kit.Result {
 				res.Err = fmt.Errorf("restore panicked: %v", r)
 			}
 		}()
-		if c.RestoreMode == "bytes" {
+		switch c.RestoreMode {
+		case "bytes":
 			w.Z.Db.RestoreSnapshot(data)
-		} else {
+		case "reader":
 			w.Z.Db.RestoreFromReader(bytes.NewReader(data))
+		default:
+			// a reader that hands over its last bytes together with io.EOF (as decompressors and HTTP bodies do)
+			w.Z.Db.RestoreFromReader(iotest.DataErrReader(bytes.NewReader(data)))
 		}
 	}()
 	if res.Err != nil {
@@ -234,7 +304,10 @@ func runC17(c c17Case) kit.Result {
 		return res
 	}
 	// timeline: the first request after restoring a marked snapshot gets a fresh id exactly once
-	if c.SnapMode != "stream" && c.Split%2 == 1 {
+	if c.SkipTimeline {
+		// no timeline request before the next snapshot: the restored database still carries its reset marker then
+		res.Classes = append(res.Classes, "no-timeline-request-between-restore-and-next-snapshot")
+	} else if c.SnapMode != "stream" && c.Split%2 == 1 {
 		// two overlapping timeline requests right after the restore: the id function runs once, both get its value
 		var calls atomic.Int32
 		idF := func() (string, error) {
@@ -330,6 +403,16 @@ func runC17(c c17Case) kit.Result {
 		res.Err = fmt.Errorf("after the second restore: %v", err)
 	}
 	res.Classes = append(res.Classes, "second-restore-cycle")
+	if c.SkipTimeline {
+		// the first timeline request at all after two restores: a fresh id, generated exactly once
+		calls := 0
+		idF := func() (string, error) { calls++; return fmt.Sprintf("timeline-late-%d", calls), nil }
+		id1, err := w.Z.Db.GetTimelineId(boltz.TimelineModeDefault, idF)
+		id2b, err2 := w.Z.Db.GetTimelineId(boltz.TimelineModeDefault, idF)
+		if err != nil || err2 != nil || calls != 1 || id1 != "timeline-late-1" || id2b != id1 {
+			res.Err = fmt.Errorf("timeline requests after the second restore: ids %q / %q, errors %v / %v, id function called %d times (want one fresh id, generated once)", id1, id2b, err, err2, calls)
+		}
+	}
 	return res
 }
 
